@@ -3,7 +3,7 @@ from . import supcommon as S
 
 OCAML = S.OCAML
 GO = S.GO
-FAMILIES = "mixed,reload,state,sdsender,big".split(",")
+FAMILIES = "mixed,reload,state,sdsender,big,subclose,errs".split(",")
 PROP = "props/C18.v"
 PROOFS = ["proofs/SupInv.v", "proofs/SupStop.v", "proofs/SupTrig.v", "proofs/SupGate.v", "proofs/SupOnce.v", "proofs/SupReload.v", "proofs/SupCensus.v"]
 
